@@ -39,7 +39,8 @@ K3_ASSUME = COMMON_ASSUMPTIONS + ["A-COMP", "A-PURE", "A-MARKER", "HoleC for chi
 FRESH = U('pyvc.fresh', 'unit', 'FRESH', needs_k3=True)
 S_MORE = [K("k3::S-Switch"), K("k3::S-Case-Condition")]
 S_COMMENT = [K("k3::S-Comment-noninterp"), K("k3::S-Comment-drop"), K("k3::S-Comment-interp")]
-TAL_BASIC = [K("k3::S-Define"), K("k3::S-Define-clauses"), K("k3::S-Condition"), K("k3::S-Content"), K("k3::S-OmitTag"),
+TAL_BASIC = [K("k3::S-Define"), K("k3::S-Define-clauses"), K("k3::S-Condition"), K("k3::S-Content"),
+             K("k3::S-Replace"), K("k3::S-Structure"), K("k3::S-OmitTag"),
              K("k3::S-OmitTag-empty"), K("k3::S-OmitTag-selfclosing"),
              K("k3::S-Attribute"), K("k3::S-Attribute-dict"), K("k3::S-Literal"), K("k3::S-Combined"), K("k3::S-Repeat")]
 
@@ -51,7 +52,7 @@ S_I18N = [K("k3::S-Translate-name"), K("k3::S-Translate-name-condition"), K("k3:
           K("k3::S-Content-translate")]
 S_METAL = [K("k3::S-UseExternal"), K("k3::S-MacroUseInternal"), K("k3::S-MacroBody"), K("k3::S-TwoMacros"),
            K("k3::S-MacroUseInternal-after-expr")]
-K2Q = [K("compiler.py::K2.__quote"), K("compiler.py::K2.__quote@char"),
+K2Q = [K("compiler.py::K2.__quote"), K("compiler.py::K2.__quote@char"), K("compiler.py::K2.__convert"),
        U('pyvc.homshape', 'unit', 'K2.__quote.hom.shape')]
 K3TECH = TECH + "; applied to code emitted by the real compiler for schema templates (K3)"
 
